@@ -137,40 +137,42 @@ def merge_values(pairs, heap):
         for c, v in reversed(pairs[:-1]):
             t = z3.If(zbool(c), to_int_term(v), t)
         return SInt(t)
-    # Optional[T]: None on some paths, one numeric class on the others
-    nn = [(c, v) for c, v in pairs if v is not None and not isinstance(v, vals.SOpt)]
-    classes = set(vals.num_class(v) for _, v in nn)
-    if nn and len(nn) < len(pairs) and len(classes) == 1 and None not in classes and not any(isinstance(v, vals.SOpt) for v in vs):
+    # Optional[T]: None on some paths, one numeric class on the others (values may themselves be Optional)
+    norm = []
+    for c, v in pairs:
+        if v is None:
+            norm.append((c, True, None))
+        elif isinstance(v, vals.SOpt):
+            norm.append((c, v.none, v.v))
+        else:
+            norm.append((c, False, v))
+    classes = set(vals.num_class(v) for _, _, v in norm if v is not None)
+    if len(classes) == 1 and None not in classes and any(not (isinstance(nn, bool) and not nn) for _, nn, _ in norm):
         cls = classes.pop()
-        none_c = False
-        rest = True  # conditions are tested in order: pair k applies when no earlier one did
-        val = None
-        acc_none = []
-        covered = False
-        # build nested ite in order
+
         def build(idx):
-            c, v = pairs[idx]
-            if idx == len(pairs) - 1:
-                return (True if v is None else False), v
-            nn_, vv_ = build(idx + 1)
-            this_none = v is None
-            none_t = vals.zite(zbool(c), z3.BoolVal(this_none), zbool(nn_))
+            c, nn, v = norm[idx]
+            if idx == len(norm) - 1:
+                return zbool(nn), v
+            rest_none, rest_val = build(idx + 1)
+            none_t = z3.If(zbool(c), zbool(nn), rest_none)
             if v is None:
-                val_t = vv_
-            elif vv_ is None:
+                val_t = rest_val
+            elif rest_val is None:
                 val_t = v
+            elif cls == "int":
+                val_t = SInt(z3.If(zbool(c), to_int_term(v), to_int_term(rest_val)))
+            elif cls == "bool":
+                val_t = SBool(z3.If(zbool(c), vals.to_bool_term(v), vals.to_bool_term(rest_val)))
+            elif cls == "float":
+                val_t = SFloat(z3.If(zbool(c), to_real_term(v), to_real_term(rest_val)))
             else:
-                if cls == "int":
-                    val_t = SInt(z3.If(zbool(c), to_int_term(v), to_int_term(vv_)))
-                elif cls == "bool":
-                    val_t = SBool(z3.If(zbool(c), vals.to_bool_term(v), vals.to_bool_term(vv_)))
-                elif cls == "float":
-                    val_t = SFloat(z3.If(zbool(c), to_real_term(v), to_real_term(vv_)))
-                else:
-                    val_t = SNum(z3.If(zbool(c), to_real_term(v), to_real_term(vv_)), z3.If(zbool(c), vals.isfloat_term(v), vals.isfloat_term(vv_)))
+                val_t = SNum(z3.If(zbool(c), to_real_term(v), to_real_term(rest_val)),
+                             z3.If(zbool(c), vals.isfloat_term(v), vals.isfloat_term(rest_val)))
             return none_t, val_t
+
         none_t, val_t = build(0)
-        return vals.mk_opt(none_t, val_t)
+        return vals.mk_opt(none_t, concretize(val_t) if val_t is not None else None)
     t = to_V(vs[-1], heap)
     for c, v in reversed(pairs[:-1]):
         t = z3.If(zbool(c), to_V(v, heap), t)
@@ -581,16 +583,20 @@ def reduce_anyall(ex, st, sp, is_any, node):
     r = z3.Bool(fresh_name("any" if is_any else "all"))
     w = z3.Int(fresh_name("w"))
 
-    def holds(k):
+    def holds_rel(k):
         kp = sp.keep(k) if sp.keep is not None else True
         return zand(zbool(kp), zbool(ex.truthy(st, sp.elem(k)))) if is_any else z3.Implies(zbool(kp), zbool(ex.truthy(st, sp.elem(k))))
 
+    # quantify over the values the loop variable takes (candle positions) when they are known, so that the
+    # engine's instantiation at candle positions hits the right instances
+    lo, hi, holds = canonical_range(sp, holds_rel)
+    rng = lambda j: z3.And(j >= lo, j < hi)
     if is_any:
-        st.assume(z3.Implies(r, z3.And(w >= 0, w < sp.n, zbool(holds(w)))))
-        st.qassumes.append(QAssume(lambda j: z3.Implies(z3.And(j >= 0, j < sp.n, zbool(holds(j))), r), "any-intro"))
+        st.assume(z3.Implies(r, z3.And(rng(w), zbool(holds(w)))))
+        st.qassumes.append(QAssume(lambda j: z3.Implies(z3.And(rng(j), zbool(holds(j))), r), "any-intro"))
     else:
-        st.assume(z3.Implies(z3.Not(r), z3.And(w >= 0, w < sp.n, z3.Not(zbool(holds(w))))))
-        st.qassumes.append(QAssume(lambda j: z3.Implies(z3.And(j >= 0, j < sp.n, r), zbool(holds(j))), "all-elim"))
+        st.assume(z3.Implies(z3.Not(r), z3.And(rng(w), z3.Not(zbool(holds(w))))))
+        st.qassumes.append(QAssume(lambda j: z3.Implies(z3.And(rng(j), r), zbool(holds(j))), "all-elim"))
     st.inst_terms.append(("term", w))
     return SBool(r)
 
